@@ -28,6 +28,7 @@ type Pool struct {
 	Cases    int
 	Crashes  int
 	Hangs    int
+	Retried  int // cases repeated after a first silence
 	Restarts int
 	MaxMs    float64
 }
@@ -144,6 +145,23 @@ func (p *Pool) Run(groups <-chan []*proto.Case, handle func(c *proto.Case, r *pr
 						}
 					}
 					r := p.runOne(ch, c)
+					if r.Hang {
+						// silence can come from the machine being busy: the case is repeated once on a fresh child with
+						// three times the budget, and only a second silence counts as a hang
+						ch.kill()
+						os.RemoveAll(fmt.Sprintf("%s/c%d", p.BaseDir, w))
+						var err error
+						ch, err = p.spawn(w)
+						if err != nil {
+							errs <- err
+							return
+						}
+						p.Mu.Lock()
+						p.Restarts++
+						p.Retried++
+						p.Mu.Unlock()
+						r = p.runOneB(ch, c, 3*p.Budget)
+					}
 					if r.Crash != "" || r.Hang {
 						ch.kill()
 						ch = nil
@@ -190,7 +208,10 @@ func (p *Pool) RunSlice(groups [][]*proto.Case, handle func(c *proto.Case, r *pr
 	return p.Run(ch, handle)
 }
 
-func (p *Pool) runOne(ch *child, c *proto.Case) *proto.Result {
+func (p *Pool) runOne(ch *child, c *proto.Case) *proto.Result { return p.runOneB(ch, c, p.Budget) }
+
+// runOneB runs a case with the given silence budget.
+func (p *Pool) runOneB(ch *child, c *proto.Case, budget time.Duration) *proto.Result {
 	r := &proto.Result{ID: c.ID, Steps: make([]proto.StepResult, len(c.Steps)), AtStep: -1}
 	b, _ := json.Marshal(c)
 	b = append(b, '\n')
@@ -199,7 +220,7 @@ func (p *Pool) runOne(ch *child, c *proto.Case) *proto.Result {
 		r.Crash = "write failed: " + err.Error() + "\n" + ch.stderr.String()
 		return r
 	}
-	timer := time.NewTimer(p.Budget)
+	timer := time.NewTimer(budget)
 	defer timer.Stop()
 	for {
 		select {
@@ -214,7 +235,7 @@ func (p *Pool) runOne(ch *child, c *proto.Case) *proto.Result {
 				default:
 				}
 			}
-			timer.Reset(p.Budget)
+			timer.Reset(budget)
 			var l proto.Line
 			if err := json.Unmarshal(bytes.TrimSpace(lb), &l); err != nil {
 				continue
